@@ -163,6 +163,44 @@ def run_flood(client, cfg, tick=TICK, pace=0.0003):
     return result, int(el * 1000)
 
 
+def run_burst(cfg, n=12, tick=TICK):
+    """n sync sessions in n threads call get() at the same moment, each against its own silent agent: every one of them is a request
+    with its own timeout - none may wait for the others (buffers, locks and pools are shared by the sessions of a process)"""
+    from gufo.snmp import SnmpVersion
+    from gufo.snmp.sync_client import SnmpSession
+    from vlib import rawdrv
+    ver = {"v1": SnmpVersion.v1, "v2c": SnmpVersion.v2c, "v3": SnmpVersion.v3}[cfg.ver]
+    socks, sessions = [], []
+    for i in range(n):
+        net = rawdrv.next_net()
+        sock, _, host, port = rawdrv.agent_socket(net)
+        socks.append(sock)
+        kw = dict(port=port, community=cfg.community, version=ver, timeout=T * tick, tos=net[2], send_buffer=net[3], recv_buffer=net[4])
+        if cfg.ver == "v3":
+            kw.update(engine_id=cfg.engine, user=apidrv.user_of(cfg))
+        sessions.append(SnmpSession(host, **kw))
+    barrier = threading.Barrier(n)
+    out = [None] * n
+
+    def work(i):
+        barrier.wait()
+        t0 = time.monotonic()
+        try:
+            sessions[i].get("1.3.6.1.2.1.1.3.0")
+            r = "delivered"
+        except BaseException as e:  # noqa
+            r = type(e).__name__
+        out[i] = (r, int((time.monotonic() - t0) * 1000))
+    ths = [threading.Thread(target=work, args=(i,), daemon=True) for i in range(n)]
+    for t in ths:
+        t.start()
+    for t in ths:
+        t.join(T * tick * 6 + 5)
+    for sk in socks:
+        sk.close()
+    return [o if o is not None else ("Hang", int(T * tick * 6000)) for o in out]
+
+
 def run_pair(client, cfg, stray_at, second_reply_at):
     """Two requests on ONE session: the first sees a stray at tick `stray_at` and times out; the second is answered at
     tick `second_reply_at` (< T) and must be delivered - whatever the first call left behind."""
@@ -324,6 +362,10 @@ def run(tier):
         t.start()
     for t in pthreads:
         t.join()
+    # bursts of concurrent sync requests (run after the parallel phase, on an otherwise idle process)
+    bursts = []
+    for cn, n in ([("v2c", 12), ("v3-md5", 10)] if not thorough else [("v2c", 12), ("v2c", 24), ("v1", 12), ("v3-md5", 16)]):
+        bursts.append((cn, n, run_burst(std[cn], n)))
     rec = trace.Recorder("c18")
     for c in cases:
         client, cn, (strays, match), tick = c
@@ -339,9 +381,39 @@ def run(tier):
             rec.emit(event(client, cn, (), ra, *r[1]))             # second call on the same session: reply at ra < T
             pair_index[rec.n] = p
         chk.case(("pair", client, cn, sa, ra))
+    burst_index = {}
+    for bi, (cn, n, res) in enumerate(bursts):
+        for r in res:
+            rec.emit(event("sync", cn, (), 0, *r))
+            burst_index[rec.n] = bi
+        chk.case(("burst", cn, n), n=n)
     v = trace.validate("TraceTimeout.tla", "TraceTimeout.cfg", rec.close())
     chk.add_tlc(v["res"], "TraceTimeout")
     chk.traces += len(cases)
+    reported_bursts = set()
+    for f in list(v["fails"]):
+        if f in burst_index:
+            v["fails"].remove(f)
+            bi = burst_index[f]
+            if bi in reported_bursts:
+                continue
+            cn, n, res = bursts[bi]
+            # confirmation: the whole burst again, twice; reported only if some request of each re-run fails as well
+            confirmed, again = True, []
+            for _ in range(2):
+                r2 = run_burst(std[cn], n)
+                again.append(r2)
+                rec2 = trace.Recorder("c18-confirm")
+                for r in r2:
+                    rec2.emit(event("sync", cn, (), 0, *r))
+                if not trace.validate("TraceTimeout.tla", "TraceTimeout.cfg", rec2.close())["fails"]:
+                    confirmed = False
+                    break
+            if confirmed:
+                reported_bursts.add(bi)
+                chk.violation(dict(kind="burst", client="sync", result=sorted({r[0] for r in res})[0]),
+                              "%d concurrent sync get() calls on %s, timeout %.3f s, silent agents: outcomes %s" % (n, cn, T * TICK, sorted(res, key=lambda x: x[1])[-4:]),
+                              dict(kind="burst", cfg=cn, n=n, runs=[res] + again))
     # re-confirmation: a case is reported only if it fails three times in a row (no single-shot timing verdicts)
     for f in v["fails"]:
         if f > len(cases):
@@ -393,6 +465,20 @@ def replay(path):
     r = d["replay"]
     std = scripts.std_cfgs()
     bad = 0
+    if r.get("kind") == "burst":
+        bad = 0
+        for _ in range(3):
+            res = run_burst(std[r["cfg"]], r["n"])
+            rec = trace.Recorder("c18-replay")
+            for x in res:
+                rec.emit(event("sync", r["cfg"], (), 0, *x))
+            v = trace.validate("TraceTimeout.tla", "TraceTimeout.cfg", rec.close())
+            print(sorted(res, key=lambda x: x[1])[-3:], "rejected" if v["fails"] else "accepted")
+            bad += 1 if v["fails"] else 0
+        if bad == 3:
+            print("VIOLATION property=C18 replay=%s" % path)
+            return 1
+        return 0
     if "pair" in r:
         for _ in range(3):
             res = run_pair(r["client"], std[r["cfg"]], r["pair"][0], r["pair"][1])
